@@ -1,2 +1,97 @@
--- stub: replaced when the area is built
-def main : IO Unit := pure ()
+import Nstd.Common.Basic
+import Nstd.Sync.Scenario
+/-
+  Line protocol of the Sync area (same lines as harness/sync.cpp):
+    reset
+    scen <prim> <init> <sec> <nsec> <quantum_ns> <spur> <eintr> T:<ret>:<op>,<op>,... T:...    -> ok <threads>
+    run <t.a>,<t.a>,... | run - | rrun <seed> <prefix>       -> init:<events> <t.a>/<candidates>:<events> ... | <verdict>
+-/
+open Nstd.Common
+namespace Nstd.Sync.Scen
+
+def parseOp (prim : String) (s : String) : Option SOp :=
+  let (name, arg) : String × Option String :=
+    match s.splitOn "-" with
+    | [n] => (n, none)
+    | [n, a] => (n, some a)
+    | _ => ("", none)
+  let op : Option SOp :=
+    match name, arg with
+    | "lock", none => some .lock
+    | "try", some a => a.toNat?.map .try_
+    | "unlock", none => some .unlock
+    | "signal", none => some .signal
+    | "wait", none => some .wait
+    | "twait", some a => a.toNat?.map .twait
+    | "trywait", none => some .trywait
+    | "set", none => some .set
+    | "reset", none => some .reset
+    | "start", some a => a.toNat?.bind fun j => if j > 0 ∧ j < 8 then some (.start j) else none
+    | "join", some a => a.toNat?.bind fun j => if j > 0 ∧ j < 8 then some (.join j) else none
+    | _, _ => none
+  op.bind fun o => if opValid prim o then some o else none
+
+def parseProg (prim : String) (tok : String) : Option (Nat × Array SOp) :=
+  match tok.splitOn ":" with
+  | ["T", r, ops] => do
+    let ret ← r.toNat?
+    let l ← if ops == "" then some [] else (ops.splitOn ",").mapM (parseOp prim)
+    if l.length > 64 then none else pure (ret, l.toArray)
+  | _ => none
+
+def mkWorld (prim : String) (init sec nsec quantum spur eintr : Nat) (progs : Array (Nat × Array SOp)) : Option World :=
+  let now := sec * 1000000000 + nsec
+  let p : Option PrimSt :=
+    if prim == "mtx" then some (.mtx Mutex.init)
+    else if prim == "sem" then some (.sem (Sem.init init now eintr))
+    else if prim == "sig" then some (.sig (Signal.init (init != 0) now spur))
+    else if prim == "mon" then some (.mon (Monitor.init now spur))
+    else if prim == "thr" then some .thr
+    else none
+  p.map fun p => { prim := p, thr := Thr.init, progs := progs, pos := Array.replicate progs.size 0, quantum := quantum }
+
+def parseScen (ws : List String) : Option World :=
+  match ws with
+  | "scen" :: prim :: init :: sec :: nsec :: q :: spur :: eintr :: progs => do
+    let init ← init.toNat?
+    let sec ← sec.toNat?
+    let nsec ← nsec.toNat?
+    let q ← q.toNat?
+    let spur ← spur.toNat?
+    let eintr ← eintr.toNat?
+    if nsec ≥ 1000000000 ∨ q = 0 ∨ progs.isEmpty ∨ progs.length > 8 then none
+    let ps ← progs.mapM (parseProg prim)
+    let ok := ps.all fun (_, ops) => ops.all fun o =>
+      match o with | .start j | .join j => j < ps.length | _ => true
+    if !ok then none
+    mkWorld prim init sec nsec q spur eintr ps.toArray
+  | _ => none
+
+def parseChoice (s : String) : Option (Nat × Nat) :=
+  match s.splitOn "." with
+  | [t, a] => do pure (← t.toNat?, ← a.toNat?)
+  | _ => none
+
+def parseSchedule (s : String) : Option (List (Nat × Nat)) :=
+  if s == "-" then some [] else (s.splitOn ",").mapM parseChoice
+
+def stepLine (st : Option World) (ws : List String) : Option World × String :=
+  match ws with
+  | ["reset"] => (none, "ok")
+  | "scen" :: _ =>
+    match parseScen ws with
+    | some w => (some w, s!"ok {w.n}")
+    | none => (none, "bad-op")
+  | ["run", sch] =>
+    match st, parseSchedule sch with
+    | some w, some pre => (st, runSchedule w pre)
+    | _, _ => (st, "bad-op")
+  | ["rrun", seed, sch] =>
+    match st, seed.toNat?, parseSchedule sch with
+    | some w, some sd, some pre => if sd = 0 ∨ sd ≥ 18446744073709551616 then (st, "bad-op") else (st, runSchedule w pre sd)
+    | _, _, _ => (st, "bad-op")
+  | _ => (st, "bad-op")
+
+end Nstd.Sync.Scen
+
+def main : IO Unit := Nstd.Common.ioLoop (none : Option Nstd.Sync.Scen.World) Nstd.Sync.Scen.stepLine
